@@ -1,6 +1,6 @@
 SPECIFICATION Spec
 CONSTANTS
-  Guids = {"g1", "g2", "g3"}
+  Guids = {"g1", "g2"}
   RuleIds = {"r1"}
   Contents = {"c1"}
   Versions = {"1.0"}
@@ -9,11 +9,12 @@ CONSTANTS
   IdsIdentifyContent = TRUE
   IncOf <- MCIncOf
   KeepHigherIncarnation = FALSE
+  ReuseUnattested = FALSE
   StateEarly = FALSE
   InitScenarios = {"fresh", "haskey", "unreadable", "rotated"}
   InitDocs <- DocsV1
   MaxReconf = 1
-  MaxFaults = 2
+  MaxFaults = 3
   MaxCrash = 2
   MaxDamage = 1
   MaxNotify = 0
